@@ -241,7 +241,7 @@ struct Pool {
 inline std::string crash_key(const std::string& desc) {
     std::string kind = "crash";
     size_t p = desc.find("ERROR: AddressSanitizer: ");
-    if (p != std::string::npos) { size_t e = desc.find_first_of(" \n", p + 25); kind = "asan:" + desc.substr(p + 25, e - p - 25); }
+    if (p != std::string::npos) { size_t e = desc.find_first_of(" \n", p + 25); kind = "asan:" + desc.substr(p + 25, e - p - 25); if (kind == "asan:requested") kind = "asan:allocation-size-too-big"; }
     else if ((p = desc.find("runtime error: ")) != std::string::npos) { size_t e = desc.find('\n', p); std::string m = desc.substr(p + 15, e - p - 15);
         // strip numbers to get a class
         std::string c; for (char ch : m) { if (isdigit((unsigned char)ch) || ch == '-') { if (c.empty() || c.back() != '#') c.push_back('#'); } else c.push_back(ch); } kind = "ubsan:" + c.substr(0, 60); }
@@ -249,8 +249,14 @@ inline std::string crash_key(const std::string& desc) {
     else if (desc.rfind("signal 11", 0) == 0) kind = "sigsegv";
     else if (desc.rfind("signal 6", 0) == 0) kind = "abort";
     else if (desc.find("allocation-size-too-big") != std::string::npos) kind = "asan:allocation-size-too-big";
-    // first frame mentioning CDNS:: or a tool source
+    // first frame mentioning CDNS:: or a tool source (stack overflow: the recursing function = most frequent frame)
     std::string frame; size_t q = 0;
+    if (kind == "asan:stack-overflow") {
+        std::map<std::string, int> freq; size_t z = 0;
+        while ((z = desc.find(" in ", z)) != std::string::npos) { size_t e = desc.find_first_of("\n", z); std::string l = desc.substr(z + 4, e - z - 4); size_t sp = l.find_first_of(" ("); l = l.substr(0, sp); if (l.find("CDNS::") != std::string::npos) freq[l]++; z += 4; }
+        int best = 0; for (auto& kv : freq) if (kv.second > best) { best = kv.second; frame = kv.first; }
+        if (!frame.empty()) return kind + "|" + frame;
+    }
     while ((q = desc.find(" in ", q)) != std::string::npos) {
         size_t e = desc.find_first_of("\n", q); std::string l = desc.substr(q + 4, e - q - 4);
         if (l.find("CDNS::") != std::string::npos || l.find("get_readable") != std::string::npos) { size_t sp = l.find_first_of(" ("); frame = l.substr(0, sp); break; }
